@@ -446,21 +446,27 @@ class Function:
         except Exception:
             _LOGGER.error("run_coro: got exception %s", traceback.format_exc(-1))
         finally:
-            if task in cls.task2cb:
-                for callback, info in cls.task2cb[task]["cb"].items():
-                    ast_ctx, args, kwargs = info
-                    try:
-                        await ast_ctx.call_func(callback, None, *args, **kwargs)
-                    except Exception as e:
-                        # a failing done-callback is reported; the remaining callbacks still run
-                        ast_ctx.log_exception(e)
-            if task in cls.unique_task2name:
-                for name in cls.unique_task2name[task]:
-                    del cls.unique_name2task[name]
-                del cls.unique_task2name[task]
-            cls.task2context.pop(task, None)
-            cls.task2cb.pop(task, None)
-            cls.our_tasks.discard(task)
+            try:
+                if task in cls.task2cb:
+                    # callbacks may be added or removed while earlier ones run: take the next one that has not run yet
+                    callbacks, called = cls.task2cb[task]["cb"], set()
+                    while (callback := next((cb for cb in callbacks if cb not in called), None)) is not None:
+                        called.add(callback)
+                        ast_ctx, args, kwargs = callbacks[callback]
+                        try:
+                            await ast_ctx.call_func(callback, None, *args, **kwargs)
+                        except Exception as e:
+                            # a failing done-callback is reported; the remaining callbacks still run
+                            ast_ctx.log_exception(e)
+            finally:
+                # also when the task is cancelled while one of its callbacks is suspended
+                if task in cls.unique_task2name:
+                    for name in cls.unique_task2name[task]:
+                        del cls.unique_name2task[name]
+                    del cls.unique_task2name[task]
+                cls.task2context.pop(task, None)
+                cls.task2cb.pop(task, None)
+                cls.our_tasks.discard(task)
 
     @classmethod
     def create_task(cls, coro, ast_ctx=None):
